@@ -18,7 +18,7 @@ EXCLUDE_FILE = os.path.join(SIMDIR, "c20_exclude.json")
 SAN_FLAGS = ["-O0", "-fsanitize=address,undefined", "-fno-sanitize=null", "-fno-sanitize-recover=all", "-D_GLIBCXX_DEBUG"]
 PLAIN_FLAGS = ["-O0", "-g1"]
 TSAN_FLAGS = ["-O1", "-g1", "-fsanitize=thread", "-DVRT_CONCURRENT"]
-WORKER_TIMEOUT = 1800
+WORKER_TIMEOUT = 900
 
 
 # ------------------------------------------------------------------------------------ building
@@ -276,6 +276,11 @@ def run_worker(exe, runs, valgrind=False, env=None):
             m = re.search(r"==\d+== ([^\n]*(?:uninitialised|Invalid|Mismatched|Use of|Syscall param|Source and destination)[^\n]*)((?:\n==\d+== +(?:at|by) [^\n]*){0,10})", err)
             det = (m.group(1) + re.sub(r"==\d+== +", " ", m.group(2))) if m else err[-1500:]
             events.append({"run": rid, "op": oi, "kind": "crash", "cls": "memcheck:" + (m.group(1).strip() if m else "error"), "fault": "-", "detail": det[-1500:]})
+        elif rc is None:
+            # a worker that exceeds the time limit proves nothing about the property (a slow harness step looks the same
+            # as a non-terminating library call): infrastructure, never a violation
+            events.append({"run": -1, "op": -1, "kind": "infra", "cls": "worker-timeout", "fault": "-",
+                           "detail": "worker exceeded %d s while executing %s (run %d op %d)" % (WORKER_TIMEOUT, name, rid, oi)})
         else:
             cls, tail = classify_death(rc, err)
             events.append({"run": rid, "op": oi, "kind": "crash", "cls": cls, "fault": "-", "detail": tail[-1500:]})
